@@ -158,6 +158,9 @@ func runCase(id int, d Defaults, c *Case) {
 		hx.Printf("sobs %d err bin=%s\n", id, binState)
 		return
 	}
+	if bytes.Contains(bTextErr, []byte("panic:")) || bytes.Contains(bCSVErr, []byte("panic:")) {
+		defer hx.Printf("crash %d benchstat: %s\n", id, firstPanicLine(append(append([]byte(nil), bTextErr...), bCSVErr...)))
+	}
 	if plainBin != "" {
 		if bytes.Equal(bText, run.text) && bytes.Equal(bTextErr, run.errText) && bytes.Equal(bCSV, run.csv) && bytes.Equal(bCSVErr, run.errCSV) {
 			binState = "ok"
@@ -391,6 +394,11 @@ func lessIDs(a, b string) bool {
 
 func main() {
 	defer hx.Flush()
+	if os.Getenv("VERIF_CHILD") == "" && os.Getenv("VERIF_NOCHILD") == "" {
+		parentLoop()
+		return
+	}
+	start, _ := strconv.Atoi(os.Getenv("VERIF_START"))
 	d := Defaults{Table: ".config", Row: ".fullname", Col: ".file", Filter: "*", Alpha: "0.05", Confidence: "0.95", Format: "text"}
 	if plainBin != "" {
 		rd, err := readDefaults(plainBin)
@@ -401,19 +409,32 @@ func main() {
 		d = rd
 	}
 	defaultsUsed = d
-	// case 0: the flag defaults of the real command
-	hx.Printf("case 0 kind=defaults tag=defaults\n")
-	hx.Printf("obs 0 table=%s row=%s col=%s ignore=%s filter=%s alpha=%s confidence=%s format=%s\n", hx.HexS(d.Table), hx.HexS(d.Row), hx.HexS(d.Col),
-		hx.HexS(d.Ignore), hx.HexS(d.Filter), hx.HexS(d.Alpha), hx.HexS(d.Confidence), hx.HexS(d.Format))
+	if start == 0 {
+		// case 0: the flag defaults of the real command
+		hx.Printf("case 0 kind=defaults tag=defaults\n")
+		hx.Printf("obs 0 table=%s row=%s col=%s ignore=%s filter=%s alpha=%s confidence=%s format=%s\n", hx.HexS(d.Table), hx.HexS(d.Row), hx.HexS(d.Col),
+			hx.HexS(d.Ignore), hx.HexS(d.Filter), hx.HexS(d.Alpha), hx.HexS(d.Confidence), hx.HexS(d.Format))
+	}
 	shard, _ := strconv.Atoi(os.Getenv("VERIF_SHARD"))
 	nsh, _ := strconv.Atoi(os.Getenv("VERIF_NSHARDS"))
 	if nsh == 0 {
 		nsh = 1
 	}
+	// idx numbers the cases of this shard in generation order; a child restarted after a crash
+	// regenerates (the generator is deterministic) and skips the cases before `start`
+	idx := 0
+	do := func(id int, c *Case) {
+		if idx >= start {
+			preLine(id, idx, c)
+			runCase(id, d, c)
+			hx.Flush()
+		}
+		idx++
+	}
 	id := 1
 	if shard == 0 {
 		for _, c := range corpusCases() {
-			runCase(id, d, c)
+			do(id, c)
 			id++
 		}
 	}
@@ -421,7 +442,7 @@ func main() {
 	r := hx.NewRand(14 + uint64(shard)*1000003)
 	n := hx.N(quickCases, thoroughCases) / nsh
 	for i := 0; i < n; i++ {
-		runCase(id, d, genCase(r, hx.Tier() == "thorough" && i%2 == 0))
+		do(id, genCase(r, hx.Tier() == "thorough" && i%2 == 0))
 		id++
 	}
 }
